@@ -268,7 +268,7 @@ if cmdline.include:
     opts = tex2txt.Options(extr=inclusion_macros,
                             defs=cmdline.define, lang=cmdline.language[:2],
                             dcls=cmdline.documentclass, pack=cmdline.packages,
-                            nosp=cmdline.no_specials)
+                            nosp=cmdline.no_specials, ienc=cmdline.encoding)
 
 def skip_file(fn):
     # does file name match regex from option --skip?
